@@ -288,6 +288,39 @@ def observers_fire_eventually(tree, rep, rule):
         raise AnalysisError("observer.py: fewer eventual hand-offs than expected (%d)" % n)
 
 
+def waiting_reads_cancel_safe(tree, rep, rule):
+    """SequenceObserver pairs every event with ONE waiting Deferred (taken from the head of _observers).  A waiting Deferred that the
+    application cancels (Deferred.addTimeout on get_message()) must leave that list: twisted silently drops the callback() that follows a
+    cancel() on a Deferred without canceller, so the next message would be handed to the dead Deferred and be lost.  Required shape: the
+    Deferred that when_next_event appends to _observers is created with a canceller, and that canceller removes it from _observers."""
+    OBS = "src/wormhole/observer.py"
+    fn = tree.func(OBS, "SequenceObserver", "when_next_event")
+    cls = tree.cls(OBS, "SequenceObserver")
+    methods = {m.name: m for m in cls.body if isinstance(m, ast.FunctionDef)}
+    apps = [c for c in ast.walk(fn) if isinstance(c, ast.Call) and isinstance(c.func, ast.Attribute) and c.func.attr == "append"
+            and is_self_attr(c.func.value, "_observers") and c.args and isinstance(c.args[0], ast.Name)]
+    if not apps:
+        raise AnalysisError("SequenceObserver.when_next_event no longer keeps the waiting Deferred in _observers")
+    ok = True
+    for a in apps:
+        defs = [d for d in local_defs(fn, a.args[0].id)]
+        good = False
+        for d in defs:
+            if isinstance(d, ast.Call) and (dotted(d.func) or "").split(".")[-1] == "Deferred":
+                canc = d.args[0] if d.args else next((k.value for k in d.keywords if k.arg == "canceller"), None)
+                if canc is not None:
+                    from ..astutil import callback_function
+                    target = callback_function(canc, fn, methods)
+                    good = target is not None and any(
+                        isinstance(x, ast.Call) and isinstance(x.func, ast.Attribute) and x.func.attr in ("remove", "discard")
+                        and is_self_attr(x.func.value, "_observers") for x in ast.walk(target))
+        ok = ok and good
+    rep.check(rule, "SequenceObserver.when_next_event: a waiting Deferred has a canceller that removes it from _observers (a cancelled "
+              "get_message() cannot swallow the next message)", ok, site(fn, OBS), key="%s:SequenceObserver.when_next_event:cancel-safe" % rule,
+              what="a get_message() Deferred that the application cancels (addTimeout) stays in SequenceObserver._observers: the next message is "
+                   "handed to it and silently dropped - the application receives the sequence with a record missing")
+
+
 def eventual_turn_isolates_calls(tree, rep, rule):
     """EventualQueue._turn: a queued call that raises is logged and does NOT drop the calls queued behind it (one of which can be
     the delivery of a message already taken out of the observer's buffer)"""
@@ -338,11 +371,21 @@ def r3(tree, prog, rep):
         raise AnalysisError("SequenceObserver._results has fewer writers than expected")
     observer_handoff_atomic(tree, rep, "C03.R3")
     observers_fire_eventually(tree, rep, "C03.R3")
+    waiting_reads_cancel_safe(tree, rep, "C03.R3")
     eventual_turn_isolates_calls(tree, rep, "C03.R3")
     own, foreign = class_writers(tree, "SequenceObserver", "_observers")
+    # the canceller(s) of the waiting Deferreds: a cancelled waiter leaves the line (the others keep their order)
+    cancellers = set()
+    wne = tree.func(OBS, "SequenceObserver", "when_next_event")
+    for c in ast.walk(wne):
+        if isinstance(c, ast.Call) and (dotted(c.func) or "").split(".")[-1] == "Deferred":
+            cc = c.args[0] if c.args else next((k.value for k in c.keywords if k.arg == "canceller"), None)
+            if cc is not None and is_self_attr(cc):
+                cancellers.add(cc.attr)
     for w in own + foreign:
         ok = w in own and ((w.kind == "assign" and is_empty_ctor(w.value, ("list", "deque"))) or w.kind == "call:append"
-                           or (w.kind == "call:pop" and len(w.value.args) == 1 and is_const(w.value.args[0], 0)) or w.kind == "call:popleft")
+                           or (w.kind == "call:pop" and len(w.value.args) == 1 and is_const(w.value.args[0], 0)) or w.kind == "call:popleft"
+                           or (w.kind in ("call:remove", "call:discard") and w.fn in cancellers))
         rep.check("C03.R3", "SequenceObserver._observers writer %s keeps waiting Deferreds first-come-first-served" % w.brief(), ok, w.site,
                   key="C03.R3:SequenceObserver._observers:writer:%s" % w.brief())
     # front-end plumbing
